@@ -45,6 +45,18 @@ CHECKS = {
         'enumerated exhaustively. Exploration, not proof.',
         'Index convention of payloads is only pinned for single-kind list events; freshness not asserted after notify-off calls; events of failing calls unconstrained.',
         'DESIGN.md section 3 C09'),
+    'C18': (
+        'differential PBT against the interpreter: generated signatures materialised with exec, generated binding/call patterns; '
+        'exhaustive product of small signature shapes x canonical patterns',
+        'Signatures (positional with trailing defaults, *rest, keyword-only with/without defaults, **kw, annotations) are generated as '
+        'data, materialised as a def and a class __init__ returning everything received, and wrapped by pg.functor(), pg.symbolize '
+        '(function / class) and pg.wrap. Patterns bind arguments at construction, later (rebind, attribute assignment, del, batched '
+        'rebind with nested paths) and at call time (override_args, ignore_extra_args), directly or after clone / deep clone / JSON. '
+        'The original callable invoked by the interpreter with the effective arguments is the reference: same result or same '
+        'exception class; sym_init_args, specified_args and inspect.signature(cls.__init__) must describe the effective arguments. '
+        'All signatures with <=2 positional, <=1 keyword-only, +-*rest, +-**kw x ~700 canonical patterns are enumerated in every run. Exploration.',
+        'Positional-only parameters and annotation enforcement are outside the modelled domain; error messages are not compared.',
+        'DESIGN.md section 3 C18'),
     'C10': (
         'PBT with reference models (key lists, Python sets, reference tree walk) + exhaustive small key alphabet',
         'Three generated case kinds: key sequences over hostile keys (dots, brackets, digits-only strings, negative ints, unicode) '
